@@ -21,7 +21,10 @@ EXPLANATION = (
     "bn, step | assume_fixed)), and that accumulated dict is what the next step receives. (D3) end nodes: the 'hot lava' "
     "predicate is equivalent (truth table over consistent / goal / minimal) to `not consistent or (not goal and minimal)`; "
     "the descendant sets are nx.descendants of the diagram's dag plus the node itself; a node is an end point only if "
-    "its descendant set is disjoint from the hot set."
+    "its descendant set is disjoint from the hot set. (D5) the target-directed expansion that precedes the analysis leaves "
+    "a node unexpanded only if it is disjoint from the target or strictly inside it (pruning-guard engine of C03-G): an "
+    "unexpanded stub is never 'minimal', so a stub hiding a minimal trap space outside the target would be accepted as "
+    "end point."
 )
 ASSUMPTIONS = [
     "LDOI containment forces the dynamics (theorem behind stable-motif control)",
@@ -33,6 +36,9 @@ def run(ck: Check) -> None:
     d1(ck)
     d2(ck)
     d3(ck)
+    from . import c03
+    c03.g_level(ck, "D5")  # the target-directed expansion may leave a node unexpanded only if disjoint / strictly inside
+    ck.floor("D5", 3)
     ck.floor("D1", 2)
     ck.floor("D2", 2)
     ck.floor("D3", 3)
